@@ -1362,6 +1362,9 @@ func (f *atomic) genNative(r *hx.Run, id *int) {
 		}
 		block(each("node_manager/whiteNode", 0, three)+" node_manager/quitNode;0;v4;v4 relayer_manager/RemoveRelayer;0;own;own "+each("relayer_manager/approveRemoveRelayer", 0, three)+
 			" header_sync/btc/SyncGenesisHeader;0;oth;oth header_sync/eth/SyncGenesisHeader;0;op;op", true)
+		// BTC redeem bindings: signature sets in which one cosigner signed twice (two different valid signatures)
+		block(fmt.Sprintf("side_chain_manager/registerRedeem;%d;oth;oth side_chain_manager/setBtcTxParam;%d;oth;oth side_chain_manager/registerRedeem;%d;-;oth",
+			r.Rng.Intn(3), r.Rng.Intn(3), 3+r.Rng.Intn(3)), true)
 		// random blocks, mostly with the right witness
 		for b := 0; b < r.Pick(6, 12); b++ {
 			var txs []string
